@@ -2,6 +2,7 @@ package props
 
 import (
 	"bytes"
+	"encoding/json"
 	"crypto/sha256"
 	"fmt"
 	"strings"
@@ -124,6 +125,17 @@ func interHubProperty(t *rapid.T, prop string) {
 	record := func(id string) []byte {
 		_, v := w.N.Ledger.Copy().GetState(constant.TransactionMgrContractAddr.Address(), []byte("tx-"+id))
 		return append([]byte(nil), v...)
+	}
+	// the remote hub's record can be frozen and activated again by governance; while it is not available requests to it
+	// begin as BEGIN_FAILURE and nothing is demanded of what comes from it
+	remoteOK := true
+	remoteStatus := func() string {
+		r := w.ViewBVM(constant.AppchainMgrContractAddr, "GetAppchain", pb.String(sim.RemoteHubID))
+		var v struct {
+			Status string `json:"status"`
+		}
+		_ = json.Unmarshal(r.Ret, &v)
+		return v.Status
 	}
 	var cur []*ihOp
 	used := map[string]bool{}
@@ -272,7 +284,7 @@ func interHubProperty(t *rapid.T, prop string) {
 			switch op.kind {
 			case "req":
 				if !ok {
-					if op.idx == reqAcc[op.out]+1 {
+					if op.idx == reqAcc[op.out]+1 && (remoteOK || op.out) {
 						f.fail("%s with the next index was rejected: %s", op.desc, rs[i].Ret)
 					}
 					continue
@@ -286,6 +298,11 @@ func interHubProperty(t *rapid.T, prop string) {
 				if T := op.tx.GetIBTP().TimeoutHeight; T > 0 {
 					m.expiry = h + uint64(T)
 				}
+				if op.out && !remoteOK {
+					// destination hub not available: the transaction begins as failed and does not time out
+					m.status, m.expiry = stBEGINFAILURE, 0
+					classes["begin-failure-remote-unavailable"] = true
+				}
 				txs[id] = m
 				order = append(order, id)
 				touched[id] = op
@@ -298,7 +315,7 @@ func interHubProperty(t *rapid.T, prop string) {
 				}
 				next, edge, lenient := ihEdge(m.status, op)
 				if !ok {
-					if edge && !lenient && op.signed && op.idx == rcpAcc[op.out]+1 {
+					if edge && !lenient && op.signed && remoteOK && op.idx == rcpAcc[op.out]+1 {
 						f.fail("%s was rejected although the transaction is %s and this is the next receipt index: %s", op.desc, stName[m.status], rs[i].Ret)
 					}
 					continue
@@ -405,6 +422,29 @@ func interHubProperty(t *rapid.T, prop string) {
 			}
 			for i := rapid.IntRange(1, 3).Draw(t, "emptyBlocks"); i > 0; i-- {
 				seal()
+			}
+		},
+		"toggleRemote": func(t *rapid.T) {
+			if len(cur) > 0 {
+				seal()
+			}
+			var r *pb.Receipt
+			if remoteOK {
+				r = w.Block(w.BVM(w.N.Admins[0], constant.AppchainMgrContractAddr, "FreezeAppchain", pb.String(sim.RemoteHubID), pb.String("r")))[0]
+			} else {
+				r = w.Block(w.BVM(keyR, constant.AppchainMgrContractAddr, "ActivateAppchain", pb.String(sim.RemoteHubID), pb.String("r")))[0]
+			}
+			if r.IsSuccess() {
+				w.VoteThrough(sim.ProposalID(r), true, 3)
+			}
+			remoteOK = remoteStatus() == "available"
+			ops = append(ops, fmt.Sprintf("  governance on the remote hub's record -> %s (height %d)", remoteStatus(), w.N.Height()))
+			// blocks went by: expiries in them are folded by the model too
+			for _, id := range order {
+				m := txs[id]
+				if m.expiry != 0 && m.expiry <= w.N.Height() && m.status == stBEGIN {
+					m.status = stBEGINROLLBACK
+				}
 			}
 		},
 		"restart": func(t *rapid.T) {
